@@ -178,8 +178,18 @@ SIZES = {
 }
 
 
+# the largest sizes the domain allows (radii / edge lengths of 1e2) are appended as the LAST entry of every list; they are
+# only used by dedicated families (index MAXSIZE[t]), not by the general deviation lattices
+SIZE_MAX = {"sphere": 100.0, "ellipsoid": (100.0, 60.0, 80.0), "capsule": (100.0, 100.0), "cylinder": (100.0, 100.0), "cone": (100.0, 100.0),
+            "box": (100.0, 100.0, 100.0), "disk": 100.0, "ellipse": (100.0, 40.0), "mesh": ("icosa", 100.0), "hull": ("cube", 100.0)}
+MAXSIZE = {}
+for _t in TYPES:
+    SIZES[_t].append(SIZE_MAX[_t])
+    MAXSIZE[_t] = len(SIZES[_t]) - 1
+
+
 def n_sizes(t):
-    return len(SIZES[t])
+    return len(SIZES[t]) - 1
 
 
 def pose(ori, centre):
